@@ -76,9 +76,12 @@ var delims = []string{"(", ")", "[", "]", "{", "}", ",", ":"}
 
 var asciiFirst = "abcdefghijklmnopqrstuvwxyzABCDEFGHIJKLMNOPQRSTUVWXYZ_"
 var asciiRest = asciiFirst + "0123456789"
-var mbLetters = []string{"é", "ñ", "ü", "Ж", "я", "ポ", "ケ", "漢", "字", "λ", "ß", "𝒳"}
+// (the second line: letters whose code point ends in the byte of an ASCII character the lexer treats specially -
+// blank, tab, LF, CR, quote, '#', '/', '(', ')', ',', ':', '{', '}', back-tick, '0', NUL)
+var mbLetters = []string{"é", "ñ", "ü", "Ж", "я", "ポ", "ケ", "漢", "字", "λ", "ß", "𝒳",
+	"Ġ", "ĉ", "Ċ", "č", "三", "上", "不", "Ģ", "ģ", "į", "Ĩ", "ĩ", "Ĭ", "ĺ", "Ż", "Ž", "Š", "İ", "Ā", "Ŝ"}
 var strayASCII = []string{"@", "$", ";", "&", "|", "/", "-", ".", "?", "%", "+", "'", "\\", "~", "^"}
-var strayMB = []string{"→", "€", "♥", "…", "¿", "★", "😀", "§", "«"}
+var strayMB = []string{"→", "€", "♥", "…", "¿", "★", "😀", "§", "«", "†", "•", "‣", "‰", "℠"}
 var prefixes = []string{"ascii", "braille", "custom", "é", "utf8_ポ", "a1", "_s", "text", "if", "format", "raw", "const"}
 
 func isWordRune(r rune) bool { return r == '_' || unicode.IsLetter(r) || unicode.IsDigit(r) }
@@ -231,7 +234,7 @@ func genIdent(r *rand.Rand, forceMB bool) string {
 
 var strPieces = []string{"Hello", "world", " ", "  ", "#", "//", "# not a comment", "// neither", "é", "ポケモン", "Ж",
 	"→", "😀", "\\n", "\\p", "\\l", "{PLAYER}", "$", "`", "\t", "'", "123", "0x1F", "!", "?", ".", ",", ":", ";",
-	"(", ")", "[", "]", "{", "}", "==", "&&", "script", "if", "-5", "*", "é$", "I'm glad to sée", "\uFFFD", "caf\uFFFD", "\uFEFF", "\u2028", "\u00A0"}
+	"(", ")", "[", "]", "{", "}", "==", "&&", "script", "if", "-5", "*", "é$", "I'm glad to sée", "\uFFFD", "caf\uFFFD", "\uFEFF", "\u2028", "\u00A0", "三上不", "čĊĠ", "†", "Ģģ"}
 
 func genStrContent(r *rand.Rand) string {
 	n := r.IntN(6)
